@@ -9,7 +9,7 @@ CFG = {
                   "for EVERY sequence of typed writes (bool, u8, i/u16, i/u32, i/u64, the four varints, float64 as its bit pattern "
                   "incl. every NaN payload, strings incl. the empty one, limited strings, raw bytes) the same sequence of reads "
                   "returns the values and leaves nothing (c10_codec_roundtrip, also in front of any continuation); ReWrite changes "
-                  "exactly the addressed bytes and panics exactly outside 0..len (c10_rewrite_exact); on arbitrary bytes every read "
+                  "exactly the addressed bytes and panics exactly outside 0..len (c10_rewrite_exact; c10_rewrite_from_self: also when the argument is a slice of the buffer's own bytes, overlapping or not); on arbitrary bytes every read "
                   "is a value of its type or an error, never a panic, and consumes a prefix (c10_decode_total); a stream truncated at "
                   "ANY byte yields the written values, then an error, never another value (c10_truncated_stream, "
                   "c10_proper_prefix_is_error); for EVERY chunking and every read program ReaderX decodes what BufferX decodes "
@@ -28,7 +28,8 @@ CFG = {
                   "are bytes (0..255), which case_accept checks on every case. Error classes: the stream reader reports io.EOF "
                   "where the buffer reader reports ErrByteBufferEmpty when a non-empty string / ZReadN finds the source exhausted "
                   "exactly at its start (modelled as coded; the property asks for 'an error instead of a value', `sims` compares "
-                  "error-ness, c10_read_agrees gives equal classes at the Read level). No axioms, nothing admitted, no PENDING clause.",
+                  "error-ness, c10_read_agrees gives equal classes at the Read level). An argument of ReWrite that aliases the buffer is modelled by its values at the call (Go's copy is a memmove); "
+                  "the rewrite-alias class observes this on the real package on every run. No axioms, nothing admitted, no PENDING clause.",
     "rule": "one case = one experiment on the real bytex package: CRound (typed writes - some of them limited strings over their limit, "
             "which must be refused and leave the buffer unchanged -, Bytes, the typed reads of the accepted writes, Len), CTrunc (the stream of "
             "the accepted writes cut at a byte position, same reads), CHist (random history of writes / reads of any type / rewrites / Len / "
@@ -59,7 +60,11 @@ CFG = {
             "45 KiB between fields of every fixed-width type), its own BufferX and its own ReaderX over its own source, decode their stream "
             "120 times (400 in the thorough tier); the first observation of each goroutine and every observation that differs from it (at "
             "most 3 more per goroutine; the comparison in Go only selects what is emitted) are judged in Coq against the model's decode of "
-            "that goroutine's own bytes - the only admissible outcome under every schedule, since the instances share nothing. Non-trivial: round = at least one write; trunc = cut < total; hist/rewrite = always; arbitrary bytes = non-empty "
+            "that goroutine's own bytes - the only admissible outcome under every schedule, since the instances share nothing. Aliased rewrite (class rewrite-alias, judged as CReWrite; fixed members, the same on every seed, emitted after all other classes): "
+            "ReWrite(pos, b.Bytes()[from:from+m]) - the argument shares memory with the buffer - for every (from, m, pos) on 4 unread bytes and on "
+            "6 unread bytes behind 2 consumed ones, the header idiom (body moved right by 4 and back) on 8..260 bytes, distances 1, 2, 7, 8, 9, 31, 32, 33 "
+            "on 64 bytes in both directions, arguments reaching past the end of the destination, positions out of range; the payload in the case "
+            "term is a copy of the argument taken before the call, so the model demands the values passed in (an overlap-safe move, c10_rewrite_from_self). Non-trivial: round = at least one write; trunc = cut < total; hist/rewrite = always; arbitrary bytes = non-empty "
             "input; hold = at least one kept value; stream = non-empty input and at least one read; large = always. distinct = distinct Coq case term.",
     "trusted": ["Go harness cmd/c10: chunkSrc (the fragmenting io.Reader: one chunk per Read, empty chunks = (0,nil), optional EOF with the last data), "
                 "the reader types wrapped around it (bufio, bytes, strings, io.LimitedReader, testing/iotest; the model is the same for all: an io.Reader delivering these bytes), "
